@@ -299,50 +299,55 @@ def prechecker_rule(ctx, facts, rid):
     if fn is None:
         r.anchor_missing(name)
         return
-    fb = FxBuilder(facts)
-    tree = fb.tree(fn)
-    ENP = 5
-    n_some = 0
-    for events, choices in tree_paths(tree):
-        last = events[-1]
-        if last[0] != "ret":
-            continue
-        ret = unstamp(path_value(last[1], choices))
-        notcheck = unpinned = not_ep = False
-        for e in events:
-            if e[0] != "branch":
-                continue
-            d = unstamp(path_value(e[1], choices))
-            s = show(d)
-            lab = e[2]
-            truth = not (lab != "else" and 0 in lab)
-            if d[0] == "discr" and s in ("discr(*self)", "discr(*self.0)"):
-                notcheck = lab != "else" and 1 in lab
-            elif "pinned_or_king Shr mv.src) BitAnd 1) Ne 0" in s:
-                unpinned = not truth
-            elif d[0] == "bin" and d[1] in ("Ne", "Eq") and "mv.kind" in s:
-                c = d[2] if d[2][0] == "const" else d[3]
-                if c == ("const", ENP, "owlchess::moves::base::MoveKind"):
-                    not_ep = truth if d[1] == "Ne" else (not truth)
-            elif d[0] == "discr" and "mv.kind" in s:
-                not_ep = lab != "else" and ENP not in lab
-        if ret[0] == "agg" and ret[2] == "None":
-            continue
-        n_some += 1
-        is_true = ret[0] == "agg" and ret[2] == "Some" and ret[3][0] == ("const", 1, "bool")
-        if not is_true:
-            r.fail("is_legal_pre/Some-other", "is_legal_pre decides legality itself on some path (returns %s): only the reviewed "
-                   "`unpinned, not king, not en passant => legal` shortcut is covered by the pin argument" % show(ret), site=ctx.site(fn))
-            continue
-        r.check(notcheck and unpinned, "is_legal_pre/Some(true)-unpinned",
-                "is_legal_pre returns Some(true) without establishing NotCheck and src not in pinned_or_king", site=ctx.site(fn),
-                what="Some(true) only if not in check and src unpinned/non-king")
-        r.check(not_ep, "is_legal_pre/Some(true)-without-excluding-Enpassant",
-                "is_legal_pre returns Some(true) on a path that does not exclude MoveKind::Enpassant: an en passant capture vacates "
-                "two squares of one rank and can expose the king although the capturing pawn is not pinned "
-                "(8/8/8/K2Pp2r/8/8/8/7k w - e6, d5e6)", site=ctx.site(fn), what="Some(true) excludes Enpassant")
-    r.check(n_some >= 1, "is_legal_pre/shape", "no Some(..) path found in is_legal_pre (shape not recognised)", site=ctx.site(fn),
-            what="is_legal_pre has the shortcut path")
+    # tabulated: the function is evaluated for either kind of PrecheckData, every move kind, and the source inside/outside the set
+    from .machine import run_function, NeedInput, Stuck, Panic
+    from .teval import Unsupported
+    PD, DP, MV = "owlchess::legal::PrecheckData", "owlchess::legal::DefaultPrechecker", "owlchess::moves::base::Move"
+    kinds = facts.adts.get("owlchess::moves::base::MoveKind")
+    pd = facts.adts.get(PD)
+    if not kinds or not pd or sorted(v["name"] for v in pd["variants"]) != ["Check", "NotCheck"]:
+        r.fail("is_legal_pre/shape", "MoveKind / PrecheckData{Check, NotCheck} not found as reviewed", site=ctx.site(fn))
+        return
+    kd = {v["name"]: v["discr"] for v in kinds["variants"]}
+    ENP = kd.get("Enpassant")
+    FULL = (1 << 64) - 1
+    n_pts = n_some = 0
+    bad = {}
+    for src in (0, 4, 12, 27, 36, 60, 63):
+        others = (1 << ((src + 9) % 64)) | (1 << ((src + 37) % 64))
+        datas = [("agg", "Check", (), PD)]
+        for bb in (0, 1 << src, others, others | (1 << src), FULL, FULL ^ (1 << src)):
+            datas.append(("agg", "NotCheck", (bb,), PD))
+        for data in datas:
+            for kname, kind in sorted(kd.items(), key=lambda x: x[1]):
+                for dst in ((src + 8) % 64, (src + 17) % 64):
+                    mv = ("agg", "Move", (kind, 1, src, dst), MV)
+                    try:
+                        got = run_function(facts, fn, {1: ("agg", "DefaultPrechecker", (data,), DP), 2: mv}, deref_self=True)[0]
+                    except (NeedInput, Stuck, Panic, Unsupported, KeyError, IndexError, TypeError) as e:
+                        bad.setdefault("is_legal_pre/shape", "is_legal_pre could not be evaluated (%s: %s)" % (type(e).__name__, str(e)[:120]))
+                        continue
+                    n_pts += 1
+                    if got == ("agg", "None", ()):
+                        continue
+                    n_some += 1
+                    desc = "%s, %s from %d, source %s the set" % (data[1], kname, src, "in" if data[1] == "NotCheck" and data[2][0] >> src & 1 else "outside")
+                    if got != ("agg", "Some", (1,)):
+                        bad.setdefault("is_legal_pre/Some-other", "is_legal_pre decides legality itself (returns %r for %s): only the reviewed "
+                                       "`unpinned, not king, not en passant => legal` shortcut is covered by the pin argument" % (got, desc))
+                    elif data[1] != "NotCheck" or data[2][0] >> src & 1:
+                        bad.setdefault("is_legal_pre/Some(true)-unpinned", "is_legal_pre returns Some(true) without NotCheck and src outside "
+                                       "pinned_or_king (%s)" % desc)
+                    elif kind == ENP:
+                        bad.setdefault("is_legal_pre/Some(true)-without-excluding-Enpassant",
+                                       "is_legal_pre returns Some(true) for MoveKind::Enpassant (%s): an en passant capture vacates "
+                                       "two squares of one rank and can expose the king although the capturing pawn is not pinned "
+                                       "(8/8/8/K2Pp2r/8/8/8/7k w - e6, d5e6)" % desc)
+    for k, msg in bad.items():
+        r.fail(k, msg, site=ctx.site(fn))
+    r.check(n_pts >= 7 * 7 * len(kd) * 2 or bool(bad), "is_legal_pre/points", "only %d points evaluated" % n_pts, site=ctx.site(fn),
+            what="is_legal_pre tabulated on %d (data, kind, source, destination) points: %d answer Some(true), all of them NotCheck, "
+                 "source outside the set, not en passant; no Some(false)" % (n_pts, n_some))
     # DefaultPrechecker::new: Check iff is_check; else pinned(b, side, king) | {king} with side = side to move
     fn = facts.fns.get("owlchess::legal::DefaultPrechecker::new")
     if fn is None:
